@@ -186,12 +186,16 @@ func (s *Scanner) Length() uint {
 		if lex.Type() == lexeme.EndTop {
 			// Found character after the end of the schema and spaces.
 			// Example: char "s" in "{} some text"
-			length = uint(lex.End()) - 1
-			if !s.hasTrailingCharacters && isClosingBracket(s.data[length]) {
-				// The foreign byte stands directly behind the closing bracket of
-				// the top-level object or array: the bracket belongs to the schema.
-				// Example: char "x" in "{}x".
-				length++
+			// The event stands at the foreign byte itself: everything before it
+			// belongs to the schema, be it a blank, a closing bracket, or the end
+			// of a multi-line annotation or comment.
+			// Example: char "x" in "{}x" and in "{} /* note */x".
+			length = uint(lex.End())
+			if s.hasTrailingCharacters {
+				// The foreign byte also ended the top-level literal or shortcut,
+				// and the event stands one byte behind it.
+				// Example: char "," in "@pig, text".
+				length--
 			}
 			break
 		}
@@ -208,10 +212,6 @@ func (s *Scanner) Length() uint {
 		}
 	}
 	return length
-}
-
-func isClosingBracket(c byte) bool {
-	return c == '}' || c == ']'
 }
 
 func (s *Scanner) newDocumentError(code errors.ErrorCode, c byte) errors.DocumentError {
